@@ -30,6 +30,8 @@ type DbStack struct {
 	rs      *resource.DbResource
 	en      *engine.DefaultEngine
 	Skipped []string
+	// SameStore: the session is persisted per request through the very handle the resource reads from
+	SameStore bool
 }
 
 // FillResourceStore writes the application into store; languages that are not ISO-639 codes are skipped.
@@ -110,7 +112,9 @@ func NewDbStack(a *App, cfg Config, resourceKind, sessionKind string) (*DbStack,
 	if resourceKind != "mem" {
 		w.Close(context.Background())
 	}
-	if sessionKind != "" {
+	if sessionKind == "same" {
+		d.SameStore = true
+	} else if sessionKind != "" {
 		if d.SB, err = NewBackend(sessionKind); err != nil {
 			return nil, err
 		}
@@ -118,10 +122,10 @@ func NewDbStack(a *App, cfg Config, resourceKind, sessionKind string) (*DbStack,
 	return d, nil
 }
 
-func (d *DbStack) resource() (*resource.DbResource, error) {
+func (d *DbStack) resource() (*resource.DbResource, db.Db, error) {
 	h, err := d.RB.Handle()
 	if err != nil {
-		return nil, err
+		return nil, nil, err
 	}
 	h.SetLock(db.DATATYPE_BIN|db.DATATYPE_TEMPLATE|db.DATATYPE_MENU|db.DATATYPE_STATICLOAD, true)
 	rs := resource.NewDbResource(h)
@@ -138,7 +142,7 @@ func (d *DbStack) resource() (*resource.DbResource, error) {
 		rs.AddLocalFunc(n, fn)
 	}
 	d.Res.Take()
-	return rs, nil
+	return rs, h, nil
 }
 
 func (d *DbStack) Request(input []byte) *Obs {
@@ -148,14 +152,17 @@ func (d *DbStack) Request(input []byte) *Obs {
 	pv, stack := vk.Guard(func() {
 		en := d.en
 		if en == nil {
-			rs, err := d.resource()
+			rs, rh, err := d.resource()
 			if err != nil {
 				o.ExecErr = "harness: " + err.Error()
 				return
 			}
 			d.rs = rs
 			en = engine.NewEngine(d.Cfg.Engine(), rs)
-			if d.SB != nil {
+			if d.SameStore {
+				// all local data in one db.Db (examples/db): the handle that serves code, templates and labels also holds the session
+				en = en.WithPersister(persist.NewPersister(rh))
+			} else if d.SB != nil {
 				var err error
 				if sstore, err = d.SB.Handle(); err != nil {
 					o.ExecErr = "harness: " + err.Error()
@@ -189,7 +196,7 @@ func (d *DbStack) Request(input []byte) *Obs {
 				o.FlushErr = ferr.Error()
 			}
 		}
-		if d.SB != nil {
+		if d.SB != nil || d.SameStore {
 			if ferr := en.Finish(ctx); ferr != nil {
 				o.FinishErr = ferr.Error()
 			}
